@@ -49,6 +49,7 @@ type viewModel struct {
 type step struct {
 	t              bool
 	r0, r1, c0, c1 int
+	api            string // which entry point builds the step: Slice | ConstSlice | MagicSlice ; T | MagicT
 }
 
 type viewCase struct {
@@ -64,15 +65,22 @@ type viewCase struct {
 func (vc *viewCase) slice(r0, r1, c0, c1 int) {
 	prev := vc.vm
 	vc.vm = viewModel{r1 - r0, c1 - c0, func(i, j int) (int, int) { return prev.at(r0+i, c0+j) }}
-	vc.steps = append(vc.steps, step{false, r0, r1, c0, c1})
+	vc.steps = append(vc.steps, step{false, r0, r1, c0, c1, "Slice"})
 	vc.word = append(vc.word, fmt.Sprintf("Slice(%d,%d,%d,%d)", r0, r1, c0, c1))
 }
 
 func (vc *viewCase) apply(m Matrix) Matrix {
 	for _, s := range vc.steps {
-		if s.t {
+		switch {
+		case s.t && s.api == "MagicT":
+			m = m.(MagicMatrix).MagicT().(Matrix)
+		case s.t:
 			m = m.T()
-		} else {
+		case s.api == "ConstSlice":
+			m = m.ConstSlice(s.r0, s.r1, s.c0, s.c1).(Matrix)
+		case s.api == "MagicSlice":
+			m = m.(MagicMatrix).MagicSlice(s.r0, s.r1, s.c0, s.c1).(Matrix)
+		default:
 			m = m.Slice(s.r0, s.r1, s.c0, s.c1)
 		}
 	}
@@ -99,8 +107,12 @@ func drawView(t *rapid.T, maxLen int) (viewCase, func(Matrix) Matrix) {
 		if rapid.IntRange(0, 2).Draw(t, "isT") == 0 {
 			prev := vm
 			vc.vm = viewModel{prev.cols, prev.rows, func(i, j int) (int, int) { return prev.at(j, i) }}
-			vc.steps = append(vc.steps, step{t: true})
-			vc.word = append(vc.word, "T")
+			api := "T"
+			if st.IsReal() && rapid.Bool().Draw(t, "magicT") {
+				api = "MagicT"
+			}
+			vc.steps = append(vc.steps, step{t: true, api: api})
+			vc.word = append(vc.word, api)
 			if sliced {
 				tAfterSlice = true
 			}
@@ -115,6 +127,14 @@ func drawView(t *rapid.T, maxLen int) (viewCase, func(Matrix) Matrix) {
 			c0 := rapid.IntRange(0, vm.cols-lo).Draw(t, "c0")
 			c1 := rapid.IntRange(c0+lo, vm.cols).Draw(t, "c1")
 			vc.slice(r0, r1, c0, c1)
+			apis := []string{"Slice", "Slice", "ConstSlice"}
+			if st.IsReal() {
+				apis = append(apis, "MagicSlice")
+			}
+			api := apis[rapid.IntRange(0, len(apis)-1).Draw(t, "sliceApi")]
+			vc.steps[len(vc.steps)-1].api = api
+			vc.word[len(vc.word)-1] = api + vc.word[len(vc.word)-1][len("Slice"):]
+			vc.classes = append(vc.classes, "step="+api)
 			sliced = true
 			if r0 != c0 {
 				unequal = true
@@ -193,7 +213,7 @@ func (vc viewCase) deepCopy() Matrix {
 
 func hasT(word []string) bool {
 	for _, w := range word {
-		if w == "T" {
+		if w == "T" || w == "MagicT" {
 			return true
 		}
 	}
